@@ -66,6 +66,18 @@ CLAIMED["C12"] = {
     "ref": "DESIGN.md section 5 (C12)",
 }
 
+CLAIMED["C01"] = {
+    "text": "Proof: is_running, _send_signal, send_signal/suspend/resume/terminate/kill and the setting forms of "
+            "nice/ionice/rlimit/cpu_affinity (with _raise_if_pid_reused, __eq__ inlined from the real source) are "
+            "verified against a process-table oracle for every history of observations: a signal or setting is issued "
+            "only when the identity of the PID's current owner was confirmed in the same invocation, with pid > 0, the "
+            "exact pid and the exact signal/value; otherwise NoSuchProcess(pid). _psposix.pid_exists never signals PID "
+            "<= 0. A table obligation scans every os.kill/killpg/waitpid call site of the package.",
+    "note": "process-table oracle assumed (start time identifies a process; the original never returns); check-then-act "
+            "window inside one invocation not covered; native setters and os.kill are environment stubs.",
+    "ref": "DESIGN.md section 5 (C01)",
+}
+
 NOT_YET = "check not built yet (work in progress, see DESIGN.md section 7)"
 NA = {}
 
